@@ -32,6 +32,8 @@ QUICK = [
                 "MaxN": "1", "MaxStk": "1", "MaxStmts": "2"}, None),      # let name :: constraint = value
     ("funcbody", {"Fam": "<- FamFuncBody", "LitPool": "<- Lits2", "Names": "<- Names2", "SigPool": "<- Sigs2",
                   "BinOps": "<- OpsFew", "MaxN": "4", "MaxStk": "2", "MaxCtx": "2", "MaxStmts": "2"}, None),   # define, then call
+    ("cmpdata", {"Fam": "<- FamCmpData", "LitPool": "<- Lits2", "Names": "<- Names1", "BinOps": "<- OpsEqNe",
+                 "FldNames": "<- Flds2", "MaxN": "5", "MaxStk": "2", "MaxStmts": "1"}, None),   # == / != of lists and tuples
     ("funcsel", {"Fam": "<- FamFuncSel", "LitPool": "<- Lits1", "Names": "<- Names2", "SigPool": "<- SigsTup",
                  "BinOps": "<- Ops2", "FldNames": "<- Flds2", "MaxN": "8", "MaxD": "5", "MaxStk": "2", "MaxCtx": "2",
                  "MaxStmts": "2"}, None),        # bodies that select fields / elements of a parameter
